@@ -10,6 +10,7 @@ RULE = ("Programs with 1-4 splitter fields (mixed case / underscore names in eve
         "two-branch, 16-64 groups; edge keys (empty key, falsy values); arbitrary generated programs (conditionals, tuples, hostile strings, shared fields) whose every result is predicted completely - route by the reference interpreter, position by the published scheme, slice by the exact partition - on fresh evaluators and on one long-lived evaluator recompile()d from program to program with unrelated compiles in between; plus deterministic_proba on generated strings and RFC 1321 known answers. "
         "Oracle: independent re-implementation of the published scheme + exact partition. Non-trivial = >=2 "
         "splitters or a salt, and >=16 groups; distinct by (program text, inputs).")
+RULE += (' Since rounds 6-7: every neighbour pair of three fixed programs through one live evaluator, every catalogue salt (incl. typographic look-alikes) walked deterministically, refused deploys in between.')
 ASSUMPTIONS = [
     "'alphabetical order of field name' is code-point order (what the pinned implementation's sorted() does)",
     "lone surrogates are excluded (no UTF-8 encoding exists; the scheme is undefined on them)",
